@@ -10,13 +10,25 @@ for p in sorted(glob.glob('/verif/seeded/*/meta.json')):
     ch = m.get('check', {})
     rows.append((name, m.get('title', '').replace('|', '/')[:110], m.get('needs', '').replace('|', '/').replace('\n', ' ')[:160],
                  'yes' if ok else 'NO (%s)' % ','.join(k for k in ('applies', 'builds', 'suite_ok', 'demo_fails_with', 'demo_passes_without') if not c.get(k)),
-                 'detected' if ch.get('detected') else 'MISSED', ', '.join(ch.get('violations', []))[:160], ch.get('note', '')))
+                 'detected' if ch.get('detected') else 'MISSED',
+                 ' '.join('%s:%s' % (k, 'detected' if v.get('detected') else 'missed') for k, v in sorted(ch.get('other_seeds', {}).items())) or '-',
+                 ', '.join(ch.get('violations', []))[:160], ch.get('note', '') or ''))
 with open('/verif/seeded/RESULTS.md', 'w') as f:
     f.write('# Seeded property-breaking changes and what the checks did with them\n\n')
     f.write('Each change was written by an independent sub-agent that saw only the property text and a scratch worktree; every one was re-confirmed by `tools/scripts/confirm_mutant.sh` (applies, builds, existing suite passes, demo fails with / passes without) and run against the check with `tools/scripts/try_mutant.sh`.\n\n')
-    f.write('| mutant | change | needs | confirmed | check | violation classes | note |\n|---|---|---|---|---|---|---|\n')
+    f.write('| mutant | change | needs | confirmed | check (seed 1) | other seeds | violation classes | note |\n|---|---|---|---|---|---|---|---|\n')
     for r in rows:
         f.write('| ' + ' | '.join(r) + ' |\n')
     det = sum(1 for r in rows if r[4] == 'detected')
     f.write('\n%d mutants, %d detected, %d missed.\n' % (len(rows), det, len(rows) - det))
-print(open('/verif/seeded/RESULTS.md').read()[-300:])
+    # property-preserving changes
+    brows = []
+    for p in sorted(glob.glob('/verif/seeded/benign/*/meta.json')):
+        m = json.load(open(p))
+        ch = m.get('check', {})
+        brows.append((os.path.basename(os.path.dirname(p)), m.get('title', '').replace('|', '/')[:140], 'quiet' if ch.get('quiet') else 'NOT QUIET (exit %s) %s' % (ch.get('exit'), ', '.join(ch.get('alarms', []))[:120])))
+    f.write('\n# Property-preserving changes (the check must stay quiet)\n\nWritten the same way (sub-agents that saw only the property text); stored under `seeded/benign/`; run with `tools/scripts/recheck_benign.py`.\n\n| change | what it changes | check |\n|---|---|---|\n')
+    for r in brows:
+        f.write('| ' + ' | '.join(r) + ' |\n')
+    f.write('\n%d changes, %d quiet.\n' % (len(brows), sum(1 for r in brows if r[2] == 'quiet')))
+print(open('/verif/seeded/RESULTS.md').read()[-120:])
